@@ -23,7 +23,7 @@
 From EoNV Require Import Prelude Samp Graph ListDict ListDictP Gillespie KldP GillespieInv SampP GillespieP GillespieLog.
 From EoNV Require Import Investigation InvestigationP GillespieC10.
 From EoNV Require Import EventSIS EventSISP EventSISRows EventSISLog EventSISFast EventSISNM EventSISOut EventSISInit EventSISEx.
-From EoNV Require Import InitChk InitChkSIS C05sHist C05sTop.
+From EoNV Require Import InitChk InitChkSIS C05sHist C05sTop C05sStatus.
 
 Section C05s.
 Variable g : graph.
@@ -90,6 +90,17 @@ Theorem C05s_ic_sisb_sound : forall nodes i0 tmin rows full, ic_sisb nodes i0 tm
         (~ In u i0 -> s = stS \/ (s = stI /\ exists t' src, In (t', Some src, u) (fd_trans fd) /\ t' == tmin)))).
 Proof. exact ic_sisb_sound. Qed.
 
+(* what Simulation_Investigation.node_status(u, tmin) / get_statuses(time = tmin) answer on an
+   accepted output: when nothing else happened at the instant tmin ([quiet_at_tmin]: no history
+   has a second entry at tmin, no sourced transmission is dated tmin -- both read off the
+   output), exactly the request: I for the initial nodes, S for every other node *)
+Theorem C05s_statuses_at_tmin_are_the_request : forall nodes i0 tmin rows fd,
+  ic_sisb nodes i0 tmin rows (Some fd) = true -> quiet_at_tmin nodes tmin fd = true ->
+  forall u, In u nodes ->
+    Investigation.node_status (Investigation.mkInv nodes (fd_hist fd) (Some [(tmin, stS)]) (Some [stS; stI])) u tmin =
+    Ok (if mem u i0 then stI else stS).
+Proof. exact statuses_at_tmin. Qed.
+
 (* rho together with initial_infecteds -- a single node or a collection, whatever the values,
    also rho = 0 or an empty list (the `is not None` tests of sim:2758, 2937): EoNError,
    nothing drawn, no rule called *)
@@ -133,7 +144,8 @@ Example C05s_fast_SIS_example :
   | (Ok o, tr) =>
       ic_sisb (gnodes gp) [0%N] (5#2) (so_rows o) (so_full o) = true /\
       map snd (firstn 1 (so_rows o)) = [[2; 1]%Z] /\ length tr = 20%nat /\ length (so_rows o) = 11%nat /\
-      hist_heads o = [(0%N, Some (5#2, stI)); (1%N, Some (5#2, stS)); (2%N, Some (5#2, stS))]
+      hist_heads o = [(0%N, Some (5#2, stI)); (1%N, Some (5#2, stS)); (2%N, Some (5#2, stS))] /\
+      option_map (quiet_at_tmin (gnodes gp) (5#2)) (so_full o) = Some true
   | _ => False
   end.
 Proof. vm_compute. repeat split. Qed.
@@ -169,7 +181,8 @@ Example C05s_zero_delay_tie_example :
   match nm_run gp durS del0 (Some 1) 0 true 100 [0%N] with
   | Ok o => ic_sisb (gnodes gp) [0%N] 0 (so_rows o) (so_full o) = true /\
             hist_heads o = [(0%N, Some (0, stI)); (1%N, Some (0, stI)); (2%N, Some (0, stS))] /\
-            firstn 2 (so_rows o) = [(0, [2; 1]%Z); (0, [1; 2]%Z)]
+            firstn 2 (so_rows o) = [(0, [2; 1]%Z); (0, [1; 2]%Z)] /\
+            option_map (quiet_at_tmin (gnodes gp) 0) (so_full o) = Some false
   | _ => False
   end.
 Proof. vm_compute. repeat split. Qed.
@@ -203,6 +216,7 @@ Print Assumptions C05s_fast_SIS_any_initial_condition.
 Print Assumptions C05s_fast_nonMarkov_SIS_starts_as_requested.
 Print Assumptions C05s_fast_nonMarkov_SIS_any_initial_condition.
 Print Assumptions C05s_ic_sisb_sound.
+Print Assumptions C05s_statuses_at_tmin_are_the_request.
 Print Assumptions C05s_rho_conflict_rejected.
 Print Assumptions C05s_rho_conflict_rejected_normalised.
 Print Assumptions C05s_single_node_is_singleton.
